@@ -837,7 +837,17 @@ func WalkVariants(i int) (WalkConfig, StrategyConfig, int) {
 	wc := WalkConfig{Nodes: nodes, Templates: []string{"A", "B"}, Key: Key}
 	sc := BaseStrategy()
 	n := 3
-	switch i % 6 {
+	switch i % 8 {
+	case 6:
+		// the user edits the canary strategy while it runs; single API calls of the replica-set syncs are refused
+		wc.Canary, wc.Strategy, wc.APIFaults, wc.Toggles, wc.Faulty, wc.Meta = true, true, true, true, true, true
+		sc = CanaryStrategy("2")
+		n = 4
+	case 7:
+		// settings, node groups and override annotations change while a rolling update runs; refused API calls
+		wc.Settings, wc.APIFaults, wc.Faulty, wc.Churn = true, true, true, true
+		sc.MaxUnavailable = "2"
+		n = 4
 	case 0:
 		wc.Faulty = true
 	case 1:
